@@ -29,7 +29,9 @@ LEVEL = 'exploration'
 RULE = ('A case = configuration (thread / multi-process deployment; file cache or per-level sqlite cache; no meta tiling, '
         'WMS-like source with meta_size 1x1..3x2 and meta_buffer 0/3/8, minimize_meta_requests, tiled source with '
         'bulk_meta_tiles; concurrent_tile_creators 1-2; one or two caches sharing one lock directory; lock timeout 60 s or '
-        '2-4 polling steps; optionally some tiles already cached; optionally one requester that is suspended while it '
+        '2-4 polling steps; optionally some tiles already cached; optionally the k-th TileLocker.lock() call of every process '
+        '(thread deployment: of the shared process) runs the stale-lock scan of the lock directory, with yield points at its '
+        'listdir / isfile / getmtime / unlink calls; optionally one requester that is suspended while it '
         'holds its first tile lock until every requester of other meta tiles has finished) x 2-6 requesters, each asking '
         'load_tile_coords for one tile or a rectangle of up to 3x3 tiles (patterns: all the same tile / tiles of one meta '
         'tile / different meta tiles, also the same x,y on another level or in another cache / rectangles spanning meta '
@@ -48,7 +50,9 @@ ASSUMPTIONS = [
     'cache and locker objects (flock is per open file description, so they contend exactly like processes)',
     'virtual clock for the lock retry loop: a sleeping waiter may be resumed at any time, the clock then jumps to its wake-up '
     'time; a requester that gets LockTimeout is counted (class f:lock-timeout), its response is not judged',
-    'cleanup_lockdir never removes a held lock file (virtual time is far behind the real mtimes); outside the model as in C07',
+    'the stale-lock scan (cleanup_lockdir, really run on the first and every 50th lock() call of a process) is forced for one '
+    'drawn lock() call per process; its file-system calls are yield points; lock files carry virtual mtimes (creation time on '
+    'the virtual clock), so no lock younger than max_lock_time is ever stale and a correct scan removes nothing',
     'upstream = analytic ground function rendered for the requested bbox (vcheck/ground.py); a tile is "correct" when every '
     'channel of every pixel is within 3 levels of the ground function at the pixel centres of that tile (PNG, not paletted)',
     'upstream is asked "once": without minimize_meta_requests no tile is covered by two upstream calls of one cache; with '
@@ -235,13 +239,18 @@ class _Namespace(object):
         return getattr(self.__dict__['_real'], name)
 
 
+PASS_THROUGH = frozenset(['s_listdir', 's_isfile', 's_getmtime', 's_unlink'])
+
+
 def raised_in_harness(exc):
     """True if the deepest frame that belongs to the harness or to MapProxy is harness code."""
     tb = exc.__traceback__
     owner = 'harness'
     while tb is not None:
         name = tb.tb_frame.f_code.co_filename.replace('\\', '/')
-        if '/vcheck/' in name:
+        if '/vcheck/' in name and tb.tb_frame.f_code.co_name in PASS_THROUGH:
+            pass     # wrapper around a real os call made by the code under test: the error is the real call's
+        elif '/vcheck/' in name:
             owner = 'harness'
         elif '/mapproxy/' in name:
             owner = 'mapproxy'
@@ -382,6 +391,8 @@ class World(object):
         self.base = base
         self.exclude = exclude             # open known-finding signatures whose construct cuts the run
         self.excluded = None
+        self.lock_calls = collections.Counter()   # "process" -> number of TileLocker.lock() calls so far
+        self.lock_mtime = {}               # lock file -> virtual creation time
         self.load_missed = set()           # (rid, cache, coord) whose batch load before the creation check missed
         self.raced = set()                 # ... and whose is_cached check then said "cached" (never loaded)
         self.lock_dir = os.path.join(base, 'locks')
@@ -526,6 +537,7 @@ class World(object):
             raise detsched.SchedulerError('two holders of lock file %s although lock attempts are atomic' % name)
         self.held[fl.lock_file] = rid
         self.holding[rid] += 1
+        self.lock_mtime[fl.lock_file] = sched.now()
         sched.log('lock-ok', rid=rid, name=name)
         if self.cfg.get('freeze') == rid and self.frozen is None:
             self.frozen = 'active'
@@ -592,6 +604,57 @@ def patched(world):
             _req.rid = -1
 
     sched = world.sched
+    from mapproxy.cache import base as mbase
+    orig_cleanup = mbase.__dict__['cleanup_lockdir']
+
+    def cleanup(lockdir, suffix='.lck', max_lock_time=300, force=True):
+        if force or lockdir != world.lock_dir or detsched.current()[0] is not sched:
+            return orig_cleanup(lockdir, suffix=suffix, max_lock_time=max_lock_time, force=force)
+        proc = world.rid() if world.cfg['deploy'] == 'procs' else 'shared'
+        idx = world.lock_calls[proc]
+        world.lock_calls[proc] += 1
+        if world.cfg.get('scan') is None or idx != world.cfg['scan']:
+            return None          # not this process' scanning call (the real counter would say the same)
+        sched.log('scan', rid=world.rid())
+        _req.scanning = True
+        try:
+            return orig_cleanup(lockdir, suffix=suffix, max_lock_time=max_lock_time, force=True)
+        finally:
+            _req.scanning = False
+
+    def in_scan():
+        return getattr(_req, 'scanning', False)
+
+    def s_listdir(path):
+        if in_scan():
+            sched.point('scan-listdir')
+        return os.listdir(path)
+
+    def s_isfile(path):
+        if not in_scan():
+            return os.path.isfile(path)
+        sched.point('scan-isfile')
+        r = os.path.isfile(path)
+        holder = world.held.get(path)
+        sched.log('scan-isfile', rid=world.rid(), name=os.path.basename(path), result=r, holder=holder)
+        return r
+
+    def s_getmtime(path):
+        if not in_scan():
+            return os.path.getmtime(path)
+        sched.point('scan-getmtime')
+        try:
+            os.path.getmtime(path)
+        except OSError:
+            sched.log('scan-vanished', rid=world.rid(), name=os.path.basename(path))
+            raise
+        return world.lock_mtime.get(path, sched.now())
+
+    def s_unlink(path):
+        if in_scan():
+            sched.point('scan-unlink')
+            sched.log('scan-unlink', rid=world.rid(), name=os.path.basename(path), holder=world.held.get(path))
+        return os.unlink(path)
 
     def vtime():
         return sched.now()
@@ -606,7 +669,10 @@ def patched(world):
         setp(mlock.FileLock, '_try_lock', _try_lock)
         setp(mlock.FileLock, 'unlock', unlock)
         setp(mlock, 'time', _Namespace(real_time, time=vtime, sleep=vsleep))
-        setp(mlock, '_cleanup_counter', 0)     # cleanup_lockdir scans on every 50th call: keep replays deterministic
+        setp(mlock, '_cleanup_counter', 0)
+        setp(mbase, 'cleanup_lockdir', cleanup)    # which lock() call scans is part of the case, not process history
+        setp(mlock, 'os', _Namespace(os, listdir=s_listdir, unlink=s_unlink,
+                                     path=_Namespace(os.path, isfile=s_isfile, getmtime=s_getmtime)))
         setp(masync.ThreadWorker, '__init__', winit)
         setp(masync.ThreadWorker, 'run', wrun)
         setp(masync, 'Queue', _Namespace(real_queue, Queue=DetQueue))
@@ -637,7 +703,10 @@ def requester(world, i):
             except Exception as e:
                 if raised_in_harness(e):
                     raise
-                world.results[i] = ('raised', (type(e).__name__, str(e)[:200], traceback.format_exc()[-1500:]))
+                tid = detsched.current()[1]
+                where = sched.threads[tid].label if 0 <= tid < len(sched.threads) else '?'
+                world.results[i] = ('raised', (type(e).__name__ + '@' + str(where), str(e)[:200],
+                                               traceback.format_exc()[-1500:]))
                 e = None
             finally:
                 mgr.cleanup()
@@ -718,6 +787,17 @@ def analyse(world, outcome):
             feats.add('holder-suspended')
         elif k == 'lock-fail-without-holder':
             feats.add('lock-fail-without-holder')
+        elif k == 'scan':
+            feats.add('scan-ran')
+        elif k == 'scan-isfile' and d['result'] and d['holder'] is not None and d['holder'] != d['rid']:
+            feats.add('scan-saw-lock-file-of-other-requester')
+        elif k == 'scan-vanished':
+            feats.add('lock-file-vanished-between-isfile-and-getmtime')
+        elif k == 'scan-unlink':
+            feats.add('scan-removed-a-lock-file')
+            if d['holder'] is not None:
+                vio.append(('C08/scan-removed-held-lock', 'the stale-lock scan of requester %d removed %s, held by requester %d '
+                            'and younger than max_lock_time' % (d['rid'], d['name'], d['holder'])))
     overlap = max([len(v) for v in pre_miss.values()] or [0])
     nontrivial = overlap >= 2
     if nontrivial:
@@ -916,6 +996,7 @@ def public_cfg(cfg):
                      for r in cfg['requests']],
         'preseed': sorted([int(v) for v in p] for p in cfg.get('preseed') or []),
         'freeze': None if cfg.get('freeze') is None else int(cfg['freeze']),
+        'scan': None if cfg.get('scan') is None else int(cfg['scan']),
     }
 
 
@@ -954,6 +1035,7 @@ def judge(cfg, res, stats, source):
                'caches:%d' % (2 if cfg['two_caches'] else 1), 'requesters:%d' % len(cfg['requests']),
                'pattern:' + pattern_of(cfg), 'lock-timeout:' + ('60s' if cfg['lock_timeout'] >= 1 else 'short'),
                'preseed:' + ('yes' if cfg['preseed'] else 'no'), 'freeze:' + ('yes' if cfg['freeze'] is not None else 'no'),
+               'scan:' + ('no' if cfg['scan'] is None else 'lock-call-%d' % cfg['scan']),
                'preemptions:%d' % min(res.preemptions, 6), 'outcome:' + res.outcome.split(':')[0]]
     if len(set(r['level'] for r in cfg['requests'])) > 1:
         classes.append('f:several-levels')
@@ -974,7 +1056,7 @@ def judge(cfg, res, stats, source):
 def _cfg(**kw):
     d = {'deploy': 'threads', 'cache': 'file', 'source': 'wms', 'meta_size': [1, 1], 'meta_buffer': 0, 'minimize': False,
          'bulk': False, 'creators': 1, 'two_caches': False, 'lock_timeout': 0.015, 'requests': [], 'preseed': [],
-         'freeze': None}
+         'freeze': None, 'scan': None}
     d.update(kw)
     return d
 
@@ -1010,6 +1092,11 @@ def dfs_configs(tier):
     out.append(('two-caches-same-tile/procs/file',
                 _cfg(deploy='procs', two_caches=True, requests=[_rq(3, 2), _rq(3, 2, cache=1)]), 2 if quick else 3))
     out.append(('same-xy-two-levels/threads/file', _cfg(requests=[_rq(3, 2), _rq(3, 2, z=1)]), 2 if quick else 3))
+    # the first lock() call of each process scans the lock directory while the other requester's lock file comes and goes
+    out.append(('different-single-tiles+scan/procs/file', _cfg(deploy='procs', scan=0, requests=[_rq(3, 2), _rq(4, 2)]),
+                2 if quick else 3))
+    out.append(('different-meta-2x2+scan/threads/file',
+                _cfg(scan=1, meta_size=[2, 2], requests=[_rq(2, 2), _rq(4, 2)]), 2))
     if not quick:
         out.append(('single-tile/threads/file/3-requesters', _cfg(requests=same + [_rq(3, 2)]), 2))
     return out
@@ -1123,6 +1210,7 @@ def cases(draw):
         preseed = [list(universe[p]) for p in picks]
     cfg['preseed'] = preseed
     cfg['freeze'] = draw(st.integers(0, nreq - 1)) if draw(st.integers(0, 3)) == 0 else None
+    cfg['scan'] = draw(st.sampled_from([0, 0, 1, 2, 3])) if draw(st.integers(0, 2)) == 0 else None
     pairs = draw(st.lists(st.tuples(st.integers(0, 10 * nreq), st.integers(0, 4)), max_size=8))
     data = draw(st.lists(st.integers(0, 2), max_size=4))
     return {'cfg': cfg, 'pairs': pairs, 'data': data}
